@@ -357,3 +357,71 @@ def write_ndjson(path, rows):
             f.write("\n")
             n += 1
     return n
+
+
+# --------------------------------------------------------------------------- generic oracle flow
+
+
+def tlc_emit_cases(chk, module, cfg, out_path, tag="CASE", workers=8, timeout=3000, sample_every=997, consts_env=None):
+    """Run a case-emitting MC configuration, write the printed cases (one JSON per line)."""
+    n = [0]
+    with open(out_path, "w", encoding="utf8") as fo:
+        def on_json(v):
+            if v and v[0] == tag:
+                fo.write(json.dumps(v, separators=(",", ":"), ensure_ascii=False) + "\n")
+                n[0] += 1
+                if n[0] % sample_every == 1:
+                    chk.sample({"tlc_case": v[1:]})
+        r = tlc(module, cfg, chk.work, workers=workers, on_json=on_json, timeout=timeout, consts_env=consts_env)
+    tlc_must_pass(r, cfg)
+    chk.add_tlc(r)
+    return n[0], r
+
+
+def replay_cases(chk, cmd, cases_path):
+    """Harness replay: returns (summary dict, bad rows)."""
+    res = os.path.join(chk.work, "replay_res.ndjson")
+    vh(cmd, stdin_path=cases_path, stdout_path=res)
+    summary = {}
+    bad = []
+    for row in read_ndjson(res):
+        if row.get("summary"):
+            summary = row
+        elif row.get("bad"):
+            bad.append(row)
+    os.remove(res)
+    return summary, bad
+
+
+def trace_validate(chk, module, cfg, trace_path, n_rows, timeout=3000, xmx="6g", env=None):
+    """Oracle-style trace spec printing ["RESULT", consumed, bad]; returns list of bad entries."""
+    result = []
+    e = {"TRACE": trace_path}
+    if env:
+        e.update(env)
+    r = tlc(module, cfg, chk.work, consts_env=e, workers=1, on_json=lambda v: result.append(v),
+            timeout=timeout, xmx=xmx)
+    tlc_must_pass(r, module)
+    chk.add_tlc(r)
+    res = [v for v in result if v and v[0] == "RESULT"]
+    if not res or res[0][1] != n_rows:
+        raise ToolError("%s consumed %s of %d lines" % (module, res[0][1] if res else None, n_rows))
+    return res[0][2]
+
+
+def canary_replay(chk, cmd, case, what):
+    can = os.path.join(chk.work, "canary_case.ndjson")
+    with open(can, "w", encoding="utf8") as f:
+        f.write(json.dumps(case, ensure_ascii=False) + "\n")
+    p = vh(cmd, stdin_path=can)
+    if b'"bad":true' not in p.stdout:
+        raise ToolError("canary (%s) not rejected by the comparator" % what)
+
+
+def canary_trace(chk, module, cfg, good_row, bad_row, what, env=None):
+    can = os.path.join(chk.work, "canary_trace.ndjson")
+    write_ndjson(can, [good_row, bad_row])
+    bad = trace_validate(chk, module, cfg, can, 2, timeout=600, xmx="2g", env=env)
+    flat = [b[0] if isinstance(b, list) else b for b in bad]
+    if flat != [2]:
+        raise ToolError("canary (%s): expected exactly line 2 rejected, got %s" % (what, bad))
